@@ -1173,8 +1173,8 @@ func negExec(in KV) string {
 	if rs := splitRecords(res.ServerWire); len(rs) > 0 {
 		recv = int(rs[0].Version)
 	}
-	return specTok + fmt.Sprintf(" ch=%s ch2=%s cfg=%04x,%04x,%d keys=%d,%d psks=%s sh=%s recv=%04x ee=%s cert=%s skx=%d applied=%d cerr=%s calert=%s salert=%s state=%s app=%d timeout=%d",
-		hx(raw), ch2, cfgMin, cfgMax, e, ecdheG, hybrid, pskSuite, joinList(n.sentSH), recv, ee, cert, n.skx, n.applied,
+	return specTok + fmt.Sprintf(" ch=%s ch2=%s cfg=%04x,%04x,%d keys=%d,%d kx=%s psks=%s sh=%s recv=%04x ee=%s cert=%s skx=%d applied=%d cerr=%s calert=%s salert=%s state=%s app=%d timeout=%d",
+		hx(raw), ch2, cfgMin, cfgMax, e, ecdheG, hybrid, kx, pskSuite, joinList(n.sentSH), recv, ee, cert, n.skx, n.applied,
 		errClass(res.ClientErr), calert, errClass(res.ServerErr), state, app, to)
 }
 
